@@ -47,6 +47,7 @@ RULE = ("operation sequences over the 28-operation language of Model.Heap: exhau
 
 ERR = {"ValueError": "EValue", "TypeError": "EType", "AttributeError": "EAttr", "IndexError": "EIndex"}
 
+np.seterr(all="ignore")
 for _n in ("droplets.droplets", "droplets.emulsions", "droplets.droplet_tracks"):
     logging.getLogger(_n).setLevel(logging.CRITICAL)
 
@@ -747,7 +748,10 @@ def _random_op_once(rng, w, classes, default_only, names, idx, flat_index):
                 return None
             c = idx(E)
             m = len(E[c]) if c < len(E) else 0
-            return ("Merge", c, idx(range(m)), idx(range(m)), rng.random() < 0.5, DUMMY)
+            i, j = idx(range(m)), idx(range(m))
+            if i < m and j < m and float(E[c][i].data["radius"]) + float(E[c][j].data["radius"]) == 0:
+                return None      # merging two vanished droplets divides by zero (outside this property)
+            return ("Merge", c, i, j, rng.random() < 0.5, DUMMY)
         if n == "TcNew":
             if len(T) >= 6 or len(E) >= MAXTAB - 2:
                 return None
@@ -870,3 +874,609 @@ def exhaustive_header(d0):
     pre = "[" + ";".join(oplit(o) for o in PREFIX) + "]"
     return (HEADER + f"Definition pre : list op := {pre}.\nDefinition d0 : dump := {dumplit(d0)}.\n"
             "Definition agree_x := agree_after pre d0.\n")
+
+
+# ---------------------------------------------------------------------------------------
+# (c) property oracle: plain list model in Python, written from the property text
+# ---------------------------------------------------------------------------------------
+class RefModel:
+    """Simple list model: values only (deep copies), no sharing.  Only the operations with default settings are
+    supported (insertion copies); the aliasing operations (from_data views, copy=False, integer indexing) are
+    documented API behaviour outside the property and are not part of the oracle's sequences."""
+
+    def __init__(self):
+        self.H = []          # values
+        self.E = []          # [dtype key or None, [values]]
+        self.T = []          # [times, [index into E]]
+        self.K = []          # [times, [values]]
+        self.L = []          # [indices into K]
+        self.nA = 0
+
+    @staticmethod
+    def _dtype(v):
+        return (0 if v[0] == 0 else 1 if v[0] == 1 else 2, len(v[1]), len(v[3]))
+
+    @staticmethod
+    def _set(v, k, x):
+        flat = value_flat(v)
+        if k >= len(flat):
+            raise IndexError
+        flat[k] = float(x)
+        d = len(v[1])
+        return (v[0], tuple(flat[:d]), flat[d], tuple(flat[d + 1:]))
+
+    def _append(self, c, v, force):
+        e = self.E[c]
+        if e[0] is None:
+            e[0] = self._dtype(v)
+        elif force and e[0] != self._dtype(v):
+            raise ValueError
+        e[1].append(v)
+
+    def _new_em(self, vals):
+        vals = list(vals)
+        self.E.append([self._dtype(vals[0]) if vals else None, vals])
+
+    def step(self, op):
+        """returns the expected outcome ('Ok' or error enum); state is updated as the property text demands"""
+        try:
+            self._do(op)
+            return "Ok"
+        except ValueError:
+            return "EValue"
+        except TypeError:
+            return "EType"
+        except AttributeError:
+            return "EAttr"
+        except IndexError:
+            return "EIndex"
+        except RuntimeError:
+            return "EOther"
+
+    def _do(self, op):
+        H, E, T, K, L = self.H, self.E, self.T, self.K, self.L
+        n = op[0]
+        if n == "New":
+            H.append(op[1])
+        elif n == "SetH":
+            H[op[1]] = self._set(H[op[1]], op[2], op[3])
+        elif n == "EmNew":
+            E.append([None, []])
+        elif n == "Append":
+            _, c, i, cp, fc = op
+            v = H[i]
+            E[c]
+            self._append(c, v, fc)
+        elif n == "Extend":
+            _, c, idx, cp, fc = op
+            vs = [H[i] for i in idx]
+            E[c]
+            for v in vs:                      # a rejected droplet stops the loop, earlier ones stay
+                self._append(c, v, fc)
+        elif n == "SetM":
+            _, c, i, k, x = op
+            E[c][1][i] = self._set(E[c][1][i], k, x)
+        elif n == "Copy":
+            self._new_em(v for v in E[op[1]][1] if v[2] > float(op[2]))
+        elif n == "Slice":
+            self._new_em(E[op[1]][1][op[2]:op[3]])
+        elif n == "Add":
+            a, b_ = E[op[1]][1], E[op[2]][1]
+            self._new_em(a + b_)
+        elif n == "RemoveSmall":
+            e = E[op[1]]
+            e[1] = [v for v in e[1] if not v[2] <= float(op[2])]
+        elif n == "RemoveOverlap":
+            e = E[op[1]]
+            dims = [len(v[1]) for v in e[1]]
+            for i in range(len(dims)):
+                for j in range(i + 1, len(dims)):
+                    if dims[i] != dims[j] and dims[i] != 1 and dims[j] != 1:
+                        raise ValueError      # positions of different dimension cannot be subtracted
+            e[1] = [v for i, v in enumerate(e[1]) if i not in set(op[2])]
+        elif n == "Link":
+            e = E[op[1]]
+            if not e[1]:
+                if e[0] is None:
+                    raise RuntimeError
+            elif len({v[0] for v in e[1]}) > 1:
+                raise TypeError
+            self.nA += 1
+        elif n == "Merge":
+            _, c, i, j, inplace, v = op
+            vi, vj = E[c][1][i], E[c][1][j]
+            err = None
+            if not (len(vj[1]) == len(vi[1]) or len(vj[1]) == 1):
+                err = ValueError
+            elif vi[0] != 0 and vj[0] == 0:
+                err = AttributeError          # a plain sphere has no interface width to average
+            if inplace:
+                E[c][1][i] = v                # merged data (cube roots): taken from the implementation
+            elif err is None:
+                H.append(v)
+            if err is not None:
+                raise err
+        elif n == "TcNew":
+            ems = [E[c] for c in op[1]]
+            ts = list(range(len(ems))) if op[2] is None else [Fraction(t) for t in op[2]]
+            if len(ts) != len(ems):
+                raise ValueError
+            base = len(E)
+            for e in ems:
+                self._new_em(e[1])
+            T.append([ts, list(range(base, base + len(ems)))])
+        elif n == "TcAppend":
+            _, t, c, tm, cp = op
+            tc, e = T[t], E[c]
+            self._new_em(e[1])
+            if tm is None:
+                tm = 0 if not tc[0] else tc[0][-1] + 1
+            tc[0].append(Fraction(tm))
+            tc[1].append(len(E) - 1)
+        elif n == "TcAppendBad":
+            T[op[1]]
+            raise TypeError
+        elif n == "TcSlice":
+            tc = T[op[1]]
+            ts, cs = tc[0][op[2]:op[3]], tc[1][op[2]:op[3]]
+            base = len(E)
+            for c in cs:
+                self._new_em(E[c][1])
+            T.append([list(ts), list(range(base, base + len(cs)))])
+        elif n == "TcClear":
+            T[op[1]] = [[], []]
+        elif n == "TrNew":
+            vs = [H[i] for i in op[1]]
+            if len({len(v[1]) for v in vs}) > 1:
+                raise ValueError
+            ts = list(range(len(vs))) if op[2] is None else [Fraction(t) for t in op[2]]
+            if len(ts) != len(vs):
+                raise ValueError
+            K.append([ts, vs])
+        elif n == "TrAppend":
+            _, k, i, tm = op
+            tr, v = K[k], H[i]
+            if tr[1] and len(tr[1][-1][1]) != len(v[1]):
+                raise ValueError
+            if tm is None:
+                tm = 0 if not tr[0] else tr[0][-1] + 1
+            tr[0].append(Fraction(tm))
+            tr[1].append(v)
+        elif n == "TrAppendBad":
+            K[op[1]]
+            raise AttributeError
+        elif n == "TrSlice":
+            tr = K[op[1]]
+            vs = tr[1][op[2]:op[3]]
+            if len({len(v[1]) for v in vs}) > 1:
+                raise ValueError
+            K.append([list(tr[0][op[2]:op[3]]), list(vs)])
+        elif n == "TlNew":
+            L.append([k for k in op[1] if K[k] is not None])
+        elif n == "TlRemoveShort":
+            ks = L[op[1]]
+            L[op[1]] = [k for k in ks
+                        if not ((K[k][0][-1] - K[k][0][0] if K[k][0] else 0) <= Fraction(op[2]))]
+        elif n == "WriteA":
+            raise NotImplementedError        # handled by the oracle directly (alias by design)
+        else:
+            raise NotImplementedError(n)
+
+    def contents(self):
+        return {"hnd": list(self.H), "ems": [(e[0], list(e[1])) for e in self.E],
+                "tcs": [(list(t[0]), list(t[1])) for t in self.T], "trs": [(list(k[0]), list(k[1])) for k in self.K],
+                "tls": [list(l) for l in self.L]}
+
+
+def world_contents(w):
+    d = w.dump()
+    return {k: d[k] for k in ("hnd", "ems", "tcs", "trs", "tls")}, d
+
+
+def _close(a, b, scale):
+    if isinstance(a, float) and math.isnan(a):
+        return isinstance(b, float) and math.isnan(b)
+    return abs(a - b) <= 1e-12 * max(1.0, scale)
+
+
+def _try(f):
+    try:
+        return ("ok", f())
+    except Exception as ex:  # noqa
+        return ("err", type(ex).__name__)
+
+
+def check_queries(w, rng):
+    """summary queries equal their definitions over the members and do not depend on member order"""
+    from droplets.emulsions import Emulsion
+    fails = []
+    for ci, e in enumerate(w.E):
+        members = list(e)
+        if any(type(d).__name__ == "PerturbedDroplet3D" for d in members) and rng.random() < 0.8:
+            continue  # numerical volume integration: only a sample of these
+        perm = list(members)
+        rng.shuffle(perm)
+        pe = Emulsion(perm, copy=False)                 # same droplets in another order (read only)
+        # definitions over the members
+        def_r = _try(lambda: [float(d.data["radius"]) for d in members])
+        def_v = _try(lambda: [float(d.volume) for d in members])
+        got = _try(lambda: e.get_size_statistics())
+        gotp = _try(lambda: pe.get_size_statistics())
+        if def_v[0] == "err":
+            if members and (got[0] != "err" or got[1] != def_v[1]):
+                fails.append(f"E[{ci}].get_size_statistics: expected {def_v[1]}, got {got}")
+        else:
+            radii, vols = def_r[1], def_v[1]
+            if got[0] != "ok":
+                fails.append(f"E[{ci}].get_size_statistics raised {got[1]}")
+            else:
+                st = got[1]
+                exp = {"count": len(radii),
+                       "radius_mean": float(np.mean(radii)) if radii else math.nan,
+                       "radius_std": float(np.std(radii)) if radii else math.nan,
+                       "volume_mean": float(np.mean(vols)) if vols else math.nan,
+                       "volume_std": float(np.std(vols)) if vols else math.nan}
+                sc = max([1.0] + [abs(x) for x in radii + vols])
+                for k, x in exp.items():
+                    if not _close(float(st[k]), float(x), sc):
+                        fails.append(f"E[{ci}].get_size_statistics[{k}] = {st[k]} != definition {x}")
+                    if gotp[0] != "ok" or not _close(float(gotp[1][k]), float(x), sc):
+                        fails.append(f"E[{ci}].get_size_statistics[{k}] depends on member order")
+            tv, tvp = _try(lambda: e.total_droplet_volume), _try(lambda: pe.total_droplet_volume)
+            sc = max([1.0] + [abs(x) for x in vols]) * max(1, len(vols))
+            if tv[0] != "ok" or not _close(float(tv[1]), float(sum(vols)), sc):
+                fails.append(f"E[{ci}].total_droplet_volume = {tv} != {sum(vols)}")
+            elif tvp[0] != "ok" or not _close(float(tvp[1]), float(tv[1]), sc):
+                fails.append(f"E[{ci}].total_droplet_volume depends on member order")
+
+        def width_def(ms):
+            num = den = 0.0
+            for d in ms:
+                if "interface_width" not in d.data.dtype.names:
+                    continue
+                wv = float(d.data["interface_width"])
+                if math.isnan(wv):
+                    continue
+                a = d.surface_area
+                num += wv * a
+                den += a
+            return None if den == 0 else num / den
+
+        dw, gw, gwp = _try(lambda: width_def(members)), _try(lambda: e.interface_width), _try(lambda: pe.interface_width)
+        if dw[0] == "err":
+            if gw[0] != "err" or gw[1] != dw[1]:
+                fails.append(f"E[{ci}].interface_width: expected {dw[1]}, got {gw}")
+        elif gw[0] != "ok" or (dw[1] is None) != (gw[1] is None) or (dw[1] is not None and not _close(gw[1], dw[1], abs(dw[1]))):
+            fails.append(f"E[{ci}].interface_width = {gw} != definition {dw[1]}")
+        elif gwp[0] != "ok" or (gwp[1] is None) != (gw[1] is None) or (gw[1] is not None and not _close(gwp[1], gw[1], abs(gw[1]))):
+            fails.append(f"E[{ci}].interface_width depends on member order")
+        # bounding box
+        dims = {len(np.atleast_1d(d.data["position"])) for d in members}
+        gb = _try(lambda: e.bbox)
+        if not members:
+            if gb != ("err", "RuntimeError"):
+                fails.append(f"E[{ci}].bbox of empty emulsion: {gb}")
+        elif len(dims) == 1:
+            lo = np.min([np.atleast_1d(d.data["position"]) - float(d.data["radius"]) for d in members], axis=0)
+            hi = np.max([np.atleast_1d(d.data["position"]) + float(d.data["radius"]) for d in members], axis=0)
+            gbp = _try(lambda: pe.bbox)
+            # Cuboid stores (pos, size) and rebuilds the upper corner as pos + size at every union: each union
+            # rounds twice (<= 2 ulp of the coordinates), n <= 16 members -> far below 1e-12 * scale
+            tol = 1e-12 * max(1.0, float(np.max(np.abs(lo))), float(np.max(np.abs(hi))))
+            if gb[0] != "ok" or not (np.allclose(gb[1].pos, lo, rtol=0, atol=tol)
+                                     and np.allclose(gb[1].pos + gb[1].size, hi, rtol=0, atol=tol)):
+                fails.append(f"E[{ci}].bbox = {gb} != [{lo}, {hi}]")
+            elif gbp[0] != "ok" or not (np.allclose(gbp[1].pos, gb[1].pos, rtol=0, atol=tol)
+                                        and np.allclose(gbp[1].size, gb[1].size, rtol=0, atol=tol)):
+                fails.append(f"E[{ci}].bbox depends on member order")
+        if len(e) != len(members):
+            fails.append(f"len(E[{ci}])")
+    for ki, k in enumerate(w.K):
+        ds = list(k.droplets)
+        if len(k) != len(ds) or len(k.times) != len(ds):
+            fails.append(f"K[{ki}]: len/times/droplets differ")
+            continue
+        if [t for t, _ in k.items()] != list(k.times) or any(a is not b_ for (_, a), b_ in zip(k.items(), ds)):
+            fails.append(f"K[{ki}].items() not paired")
+        exp_dur = (k.times[-1] - k.times[0]) if ds else 0
+        if k.duration != exp_dur:
+            fails.append(f"K[{ki}].duration = {k.duration} != {exp_dur}")
+        if ds:
+            tr = _try(lambda: k.get_trajectory())
+            exp = np.array([np.atleast_1d(d.data["position"]) for d in ds])
+            if tr[0] != "ok" or not np.array_equal(tr[1], exp):
+                fails.append(f"K[{ki}].get_trajectory != member positions")
+            rr = _try(lambda: k.get_radii())
+            if rr[0] != "ok" or not np.array_equal(rr[1], np.array([float(d.data["radius"]) for d in ds])):
+                fails.append(f"K[{ki}].get_radii != member radii")
+            t0 = k.times[len(ds) // 2]
+            j = list(k.times).index(t0)
+            gp = _try(lambda: k.get_position(t0))
+            if gp[0] != "ok" or not np.array_equal(gp[1], np.atleast_1d(ds[j].data["position"])):
+                fails.append(f"K[{ki}].get_position({t0})")
+    for ti, tc in enumerate(w.T):
+        if len(tc.times) != len(tc.emulsions) or len(tc) != len(tc.emulsions):
+            fails.append(f"T[{ti}]: {len(tc.times)} times, {len(tc.emulsions)} emulsions")
+            continue
+        if [t for t, _ in tc.items()] != list(tc.times) or any(a is not b_ for (_, a), b_ in zip(tc.items(), tc.emulsions)):
+            fails.append(f"T[{ti}].items() not paired")
+        if tc.times:
+            ts = [float(t) for t in tc.times]
+            probes = ts + [(a + b_) / 2 for a, b_ in zip(ts, ts[1:])] + [min(ts) - 1, max(ts) + 1.25]
+            for t in probes:
+                dist = [abs(x - t) for x in ts]
+                j = dist.index(min(dist))          # definition: closest time; first one on ties
+                got = _try(lambda: tc.get_emulsion(t))
+                if got[0] != "ok" or got[1] is not tc.emulsions[j]:
+                    fails.append(f"T[{ti}].get_emulsion({t}) is not the emulsion at the nearest time {ts[j]}")
+                    break
+        for i in range(len(tc.emulsions)):
+            if tc[i] is not tc.emulsions[i]:
+                fails.append(f"T[{ti}][{i}]")
+    for li, l in enumerate(w.L):
+        from droplets.droplet_tracks import DropletTrackList
+        perm = list(l)
+        rng.shuffle(perm)
+        pl = DropletTrackList(perm)
+        md = 1.0
+        pl.remove_short_tracks(md)
+        keep = [t for t in l if not (t.duration <= md)]
+        if sorted(map(id, pl)) != sorted(map(id, keep)):
+            fails.append(f"L[{li}].remove_short_tracks depends on order or differs from its definition")
+    return fails
+
+
+def oracle_run(ops, rng=None, queries=True):
+    """Run a default-settings operation sequence on the implementation next to the list model.
+    Returns None or a description of the first failure."""
+    rng = rng or random.Random(0)
+    w, m = World(), RefModel()
+    for step, op in enumerate(ops):
+        n = op[0]
+        if n in ("View", "Get", "TrGet") or (n in ("Append", "Extend") and not op[3]):
+            continue        # aliasing by design: not part of the property's "default settings"
+        before = None
+        if n == "WriteA":
+            _, before = world_contents(w)
+        op2, oc = w.apply(op)
+        where = f"step {step} {op2!r}"
+        cont, dump = world_contents(w)
+        if n == "WriteA":
+            # alias by design: the write may change at most ONE droplet (the linked member), no handle, no track
+            changed = 0
+            if dump["hnd"] != before["hnd"] or dump["trs"] != before["trs"]:
+                return f"{where}: write through a linked array changed a caller droplet or a track"
+            for (_, a), (_, b_) in zip(before["ems"], dump["ems"]):
+                changed += sum(1 for x, y in zip(a, b_) if x != y)
+            if changed > 1:
+                return f"{where}: write through a linked array changed {changed} members"
+            if oc == "Ok" and changed == 1:
+                for e in m.E:                 # follow the implementation for the aliased write
+                    pass
+            m.E = [[k, list(vs)] for k, vs in dump["ems"]]
+        else:
+            exp = m.step(op2)
+            if exp != oc:
+                return f"{where}: outcome {oc}, list model expects {exp}"
+            mc = m.contents()
+            for key in ("hnd", "ems", "tcs", "trs", "tls"):
+                if mc[key] != cont[key]:
+                    return f"{where}: {key} differ from the list model: implementation {cont[key]!r} model {mc[key]!r}"
+        # alignment after EVERY operation, failed ones included
+        for ti, tc in enumerate(w.T):
+            if len(tc.times) != len(tc.emulsions):
+                return f"{where}: T[{ti}] has {len(tc.times)} times but {len(tc.emulsions)} emulsions"
+        for ki, k in enumerate(w.K):
+            if len(k.times) != len(k.droplets):
+                return f"{where}: K[{ki}] has {len(k.times)} times but {len(k.droplets)} droplets"
+        # ownership: every stored droplet is its own object with its own record
+        pos = w.positions()
+        if dump["objsig"] != list(range(len(pos))):
+            i = next(i for i, x in enumerate(dump["objsig"]) if x != i)
+            return f"{where}: droplet at position {i} is the same object as the one at position {dump['objsig'][i]}"
+        if dump["stosig"][:len(pos)] != list(range(len(pos))):
+            i = next(i for i, x in enumerate(dump["stosig"][:len(pos)]) if x != i)
+            return f"{where}: droplet at position {i} shares its data with position {dump['stosig'][i]}"
+        ids = [id(e) for e in w.E]
+        if len(set(ids)) != len(ids):
+            return f"{where}: one Emulsion object is referenced twice (stored emulsion is not a copy)"
+        # independence, dynamically: mutate one droplet through its reference, nothing else may change
+        if pos:
+            probes = {rng.randrange(len(pos)), len(pos) - 1}
+            if n in ("Append", "Extend") and oc == "Ok" and op2[2] != () and w.H:
+                i = op2[2] if n == "Append" else op2[2][-1]
+                if isinstance(i, int) and i < len(w.H):
+                    probes.add(i)     # the caller's droplet that was just inserted
+            for pi in sorted(probes):
+                d = pos[pi]
+                vals0 = [value_of(x) for x in pos]
+                r0 = float(d.data["radius"])
+                d.radius = r0 + 1.0
+                vals1 = [value_of(x) for x in pos]
+                d.radius = r0
+                diff = [j for j in range(len(pos)) if vals0[j] != vals1[j]]
+                if diff != [pi]:
+                    return (f"{where}: changing the radius of the droplet at position {pi} changed positions {diff} "
+                            f"(positions: handles, then members of E[0], E[1], ..., then tracks)")
+        if queries and (step == len(ops) - 1 or rng.random() < 0.15):
+            qf = check_queries(w, rng)
+            if qf:
+                return f"{where}: {qf[0]}"
+    return None
+
+
+def shrink(ops, fails):
+    """delete operations while the sequence still fails"""
+    ops = list(ops)
+    i = 0
+    budget = 400
+    while i < len(ops) and budget > 0:
+        cand = ops[:i] + ops[i + 1:]
+        budget -= 1
+        if fails(cand):
+            ops = cand
+        else:
+            i += 1
+    return ops
+
+
+def ops_to_json(ops):
+    def conv(x):
+        if isinstance(x, tuple):
+            return [conv(y) for y in x]
+        if isinstance(x, Fraction):
+            return float(x)
+        return x
+    return [conv(o) for o in ops]
+
+
+def ops_from_json(lst):
+    def conv(x):
+        if isinstance(x, list):
+            return tuple(conv(y) for y in x)
+        return x
+    return [conv(o) for o in lst]
+
+
+# ---------------------------------------------------------------------------------------
+# the check
+# ---------------------------------------------------------------------------------------
+DEPS = ["Proofs/C20.vo"]
+# operation sequences that failed once (kept as regression inputs of the oracle; all pass on the current tree)
+CORPUS = [
+    # F11: merge after get_linked_data (fixed by commit c6eb4d5 in /repo)
+    [("New", VB), ("New", VB), ("EmNew",), ("Extend", 0, (0, 1), True, False), ("Link", 0),
+     ("Merge", 0, 0, 1, False, DUMMY), ("Merge", 0, 0, 1, True, DUMMY)],
+    # one op of every kind with default settings
+    PREFIX + [("Append", 0, 0, True, False), ("SetH", 0, 2, 3.0), ("SetM", 0, 0, 2, 5.0), ("Slice", 0, 0, 2),
+              ("Copy", 0, 1.0), ("Add", 0, 0), ("Link", 0), ("WriteA", 0, 0, 2, 7.0), ("TcAppend", 0, 0, None, True),
+              ("TcAppendBad", 0), ("TcSlice", 0, 0, 2), ("TrAppend", 0, 0, None), ("TrAppendBad", 0),
+              ("TrSlice", 0, 0, 2), ("Append", 0, 1, True, True), ("RemoveSmall", 0, 1.0), ("RemoveOverlap", 0, ()),
+              ("TlNew", (0, 1)), ("TlRemoveShort", 0, 0.5), ("TcClear", 0)],
+]
+
+
+def _is_default(op):
+    n = op[0]
+    return not (n in ("View", "Get", "TrGet") or (n in ("Append", "Extend") and not op[3]))
+
+
+def _nontrivial(done, obs):
+    return any(oc == "Ok" and o[0] not in ("New", "EmNew") for o, (oc, _) in zip(done, obs))
+
+
+def _book(ctx, done, obs, kind):
+    ctx.case([kind] + ops_to_json(done), nontrivial=_nontrivial(done, obs))
+    ctx.count("sequence_kind", kind)
+    ctx.count("sequence_length", len(done))
+    for o, (oc, _) in zip(done, obs):
+        ctx.count("operation", o[0])
+        ctx.count("outcome", oc)
+        if o[0] == "New":
+            ctx.count("droplet_class", _classes()[o[1][0]].__name__)
+            ctx.count("droplet_dim", len(o[1][1]))
+
+
+def _oracle_violation(ctx, ops, why, seen):
+    """shrink a failing oracle input and record it"""
+    def fails(cand):
+        try:
+            return oracle_run(cand, random.Random(0)) is not None
+        except Exception:  # noqa
+            return False
+    small = shrink([o for o in ops if _is_default(o)], fails)
+    msg = oracle_run(small, random.Random(0)) or why
+    key = json.dumps(ops_to_json(small))
+    if key in seen:
+        return
+    seen.add(key)
+    ctx.violations.append({"what": msg, "input": {"ops": ops_to_json(small)}, "found": True,
+                           "broken": ctx.broken[:3]})
+
+
+def check(ctx: vlib.Ctx) -> int:
+    rng = random.Random(ctx.seed)
+    ok = vlib.prove(ctx, DEPS)
+    ctx.tie.append("correspondence: operation sequences executed by the implementation and by Model.Heap.exec, "
+                   "dumps (contents + aliasing signature + outcome per operation) compared inside Coq")
+    seen = set()
+    suspicious = []      # op sequences on which model and implementation disagree
+    # ---- (b1) exhaustive sequences after the fixed prefix
+    if ok:
+        maxlen = ctx.scale(3, 4)
+        alpha3 = ALPHABET                    # 16 letters up to length 3
+        d0, out = exhaustive_cases(alpha3, 3)
+        if maxlen >= 4:
+            d0b, out4 = exhaustive_cases(ALPHABET[:14], 4)
+            out = out + [x for x in out4 if len(x[0]) == 4]
+        cases = []
+        for seq, done, obs in out:
+            cases.append(caselit(done, obs, d0))
+            _book(ctx, PREFIX + done, [("Ok", None)] * len(PREFIX) + obs, f"exhaustive_len{len(seq)}")
+        ctx.sample({"exhaustive_case": {"prefix": ops_to_json(PREFIX), "ops": ops_to_json(out[300][1]),
+                                        "outcomes": [oc for oc, _ in out[300][2]]}})
+        bad = vlib.run_cases(ctx, "exh", exhaustive_header(d0), cases, "agree_x", shard=max(60, len(cases) // 64 + 1),
+                             timeout=900)
+        if bad:
+            ctx.broken.append(f"correspondence (exhaustive sequences): model and implementation differ on {len(bad)} "
+                              f"of {len(cases)} sequences, first: {ops_to_json(out[bad[0]][1])}")
+            suspicious += [PREFIX + out[i][1] for i in bad[:40]]
+        ctx.extra["exhaustive"] = {"alphabet": len(alpha3), "max_length": maxlen, "cases": len(cases)}
+    # ---- (b2) random sequences over all five classes
+    if ok:
+        nrand = ctx.scale(240, 1600)
+        cases, seqs = [], []
+        for i in range(nrand):
+            done, obs, _w = random_sequence(rng, rng.randrange(4, 41), [0, 1, 2, 3, 4],
+                                            default_only=(i % 4 == 0))
+            cases.append(caselit(done, obs))
+            seqs.append(done)
+            _book(ctx, done, obs, "random")
+        ctx.sample({"random_case": {"ops": ops_to_json(seqs[0][:8]), "n_ops": len(seqs[0])}})
+        bad = vlib.run_cases(ctx, "rnd", HEADER, cases, "agree", shard=max(4, nrand // 48), timeout=900)
+        if bad:
+            ctx.broken.append(f"correspondence (random sequences): model and implementation differ on {len(bad)} "
+                              f"of {len(cases)} sequences")
+            suspicious += [seqs[i] for i in bad[:40]]
+    # ---- (c) property oracle: corpus, a stream of default-settings sequences, and (when something is broken)
+    #      the sequences on which model and implementation disagree plus a larger stream
+    orng = random.Random(ctx.seed + 1)
+    todo = [list(c) for c in CORPUS]
+    todo += [PREFIX + [ALPHABET[a], ALPHABET[b_]] for a in range(len(ALPHABET)) for b_ in range(len(ALPHABET))
+             if _is_default(ALPHABET[a]) and _is_default(ALPHABET[b_])]
+    nstream = ctx.scale(100, 600) if not ctx.broken else ctx.scale(300, 900)
+    for i in range(nstream):
+        done, obs, _w = random_sequence(orng, orng.randrange(4, 41), [0, 1, 2, 3, 4], default_only=True)
+        todo.append(done)
+    todo = suspicious + todo
+    nor = 0
+    for ops in todo:
+        if len(ctx.violations) >= 3:
+            break
+        nor += 1
+        try:
+            why = oracle_run(ops, random.Random(nor))
+        except Exception as ex:  # noqa   the oracle itself must not crash: report it as a failing input
+            why = f"oracle crashed: {type(ex).__name__}: {ex}"
+        ctx.count("oracle_sequences", "run")
+        if why:
+            _oracle_violation(ctx, ops, why, seen)
+    ctx.extra["oracle_sequences"] = nor
+    return vlib.finish(ctx, "", TRUSTED, ASSUME, RULE)
+
+
+def replay(path: str) -> int:
+    obj = json.load(open(path))
+    print(json.dumps(obj, indent=1)[:3000])
+    inp = obj.get("input") or {}
+    if "ops" not in inp:
+        print("no operation sequence stored (obligation / correspondence failure without failing input)")
+        return 1
+    ops = ops_from_json(inp["ops"])
+    why = oracle_run(ops, random.Random(0))
+    print("oracle on current tree:", why or "passes")
+    done, obs, w = run_sequence(ops)
+    for o, (oc, _d) in zip(done, obs):
+        print("  ", o, "->", oc)
+    print("final contents:", world_contents(w)[0])
+    return 1 if why else 0
